@@ -36,8 +36,8 @@ def run(ctx):
             runs.append(("exh", "thread", lim, 3, 3))
             runs.append(("exh", "process", lim, 3, 3))
     # large key alphabet with a limit well above 64 (hash-table growth / collisions)
-    runs.append(("rand", "thread", 100, 300, 2500 if q else 20000, 1))
-    runs.append(("rand", "process", 150, 300, 2500 if q else 20000, 1))
+    runs.append(("rand", "thread", 100, 300, 2500 if q else 8000, 1))
+    runs.append(("rand", "process", 150, 300, 2500 if q else 8000, 1))
     # process-shared cache under memory pressure (values comparable to the 1 MiB segment): a store may evict several
     # entries / be dropped / clear the cache - every victim must still follow "expired first, then least recently used"
     if q:
